@@ -1295,15 +1295,15 @@ def check_memory_primitives(ctx):
         why = None
         try:
             for bank, idx, as_text in (("R", 3, False), ("C", 0, False), ("Q", 15, True), ("M", 0, True)):
-                banks = {(rn.qualname, b_): {1: 77} for b_ in rmem}  # the interpreter keys tables by (enum, member name)
+                banks = {EnumMember(rn.qualname, b_, rmem[b_]): {1: 77} for b_ in rmem}  # (an enumeration member is its own key)
                 o = C.object_from_init(repo, sh, {"_registers": banks}, kind="self")
                 sc = C.Scenario()
                 sc.overrides["parse_register"] = lambda text, bank=bank, idx=idx: mk(text[0], int(text[1:]))
                 arg = f"{bank}{idx}" if as_text else mk(bank, idx)
                 C.Interp(repo, ctx.ev, sc, sh).call_function(m, f, [arg, 41], {}, self_obj=o)
-                want = {(rn.qualname, b_): ({1: 77, idx: 41} if b_ == bank else {1: 77}) for b_ in rmem}
+                want = {EnumMember(rn.qualname, b_, rmem[b_]): ({1: 77, idx: 41} if b_ == bank else {1: 77}) for b_ in rmem}
                 if o.fields["_registers"] != want:
-                    why = f"set_register({arg!r}, 41) leaves the banks as { {k_[1]: v_ for k_, v_ in o.fields['_registers'].items()} }"
+                    why = f"set_register({arg!r}, 41) leaves the banks as { {getattr(k_, 'name', k_): v_ for k_, v_ in o.fields['_registers'].items()} }"
                     break
                 if g_ is not None:
                     back = C.Interp(repo, ctx.ev, sc, sh).call_function(m, g_, [arg], {}, self_obj=o)
